@@ -15,6 +15,9 @@ import RV.Base.Proto
                                             | filter E Q | proj k v… Q ;  E = same T T | bound ?v | not E | and E E | or E E
     use A|B                       -> ok
     run                           -> rows … one evaluation of the prepared tree (its state is kept)
+    sel k tp… (nosub | sub j v… k' tp…) (nofilt | filt E) (star | proj j v…)   -> ok   a `SelQ`
+    evalinit                      -> rows … `evalInit` with the current initBindings
+    evalvalues                    -> rows … `evalValues`: the same bindings as a VALUES row
     state                         -> clean | dirty
   Rows: one `t0,t1,…` per solution (`-` = unbound), sorted, separated by blanks.
 -/
@@ -31,10 +34,11 @@ structure St where
   bgp : List (TP n)
   init : Row n
   tree : Option (QS n)
+  sel : Option (SelQ n)
 
 def St.fresh (n lo hi : Nat) : St :=
   { n := n, litLo := lo, litHi := hi, dataA := [], dataB := [], useB := false, store := 0, bgp := [],
-    init := Row.empty, tree := none }
+    init := Row.empty, tree := none, sel := none }
 
 def pt? (n : Nat) (w : String) : Option (PT n) :=
   if w.startsWith "?" then
@@ -154,6 +158,38 @@ def parseQ (n : Nat) : Nat → List String → Option (Q n × List String)
       pure (.proj vs q, r2)
     | _ => none
 
+def parseSel (n : Nat) (toks : List String) : Option (SelQ n) := do
+  match toks with
+  | k :: rest =>
+    let k ← k.toNat?
+    let (ts, r1) ← takeTPs n k rest
+    let (sub, r2) ← (match r1 with
+      | "nosub" :: r => some (none, r)
+      | "sub" :: j :: r => do
+        let j ← j.toNat?
+        let (pv, ra) ← takeVars n j r
+        match ra with
+        | k' :: rb => do
+          let k' ← k'.toNat?
+          let (ts', rc) ← takeTPs n k' rb
+          pure (some (pv, ts'), rc)
+        | [] => none
+      | _ => none : Option (Option (List (Fin n) × List (TP n)) × List String))
+    let (filt, r3) ← (match r2 with
+      | "nofilt" :: r => some (none, r)
+      | "filt" :: r => do
+        let (e, rr) ← parseE n (r.length + 1) r
+        pure (some e, rr)
+      | _ => none : Option (Option (Ex n) × List String))
+    match r3 with
+    | ["star"] => pure { ts := ts, sub := sub, filt := filt, proj := none }
+    | "proj" :: j :: r => do
+      let j ← j.toNat?
+      let (pv, rr) ← takeVars n j r
+      if rr.isEmpty then pure { ts := ts, sub := sub, filt := filt, proj := some pv } else none
+    | _ => none
+  | [] => none
+
 def step (s : St) : List String → St × String
   | ["reset", n, lo, hi] =>
     match n.toNat?, lo.toNat?, hi.toNat? with
@@ -200,6 +236,18 @@ def step (s : St) : List String → St × String
     | some t =>
       let r := t.run (graphStore (s.data.map (·.1)))
       ({ s with tree := some r.2 }, showRows r.1)
+    | none => (s, "bad-op")
+  | "sel" :: toks =>
+    match parseSel s.n toks with
+    | some q => ({ s with sel := some q }, "ok")
+    | none => (s, "bad-op")
+  | ["evalinit"] =>
+    match s.sel with
+    | some q => (s, showRows (evalInit s.storeFn s.init q))
+    | none => (s, "bad-op")
+  | ["evalvalues"] =>
+    match s.sel with
+    | some q => (s, showRows (evalValues s.storeFn s.init q))
     | none => (s, "bad-op")
   | ["state"] =>
     match s.tree with
